@@ -8,7 +8,8 @@ open TTV TTV.Run
 def drv : PropDrv Input (List Trace) :=
   { decI := RunCodec.input?, decT := RunCodec.traces?, encT := RunCodec.ofTraces, model := model,
     clauses := Spec.C05.clauses,
-    classes := fun i => if Spec.C05.lateCollision i then ["lateCollision"] else [] }
+    classes := fun i => (if Spec.C05.lateCollision i then ["lateCollision"] else []) ++
+      (if Spec.Run.wf i.prog then [] else ["not-wf"]) }
 
 def handle : List Sexp → Sexp := drv.handle
 end TTV.Drv.C05
